@@ -618,10 +618,12 @@ class MyPyAstVisitor:
                                 if isinstance(type_, sds_types.NamedType | sds_types.TupleType):
                                     types[str(type_.to_dict())] = type_
                     elif hasattr(return_stmt.expr, "node") and getattr(return_stmt.expr.node, "is_self", False):
-                        # The result type is an instance of the parent class
-                        expr_type = return_stmt.expr.node.type.type
-                        self_type = sds_types.NamedType(name=expr_type.name, qname=expr_type.fullname)
-                        types[str(self_type.to_dict())] = self_type
+                        # The result type is an instance of the parent class. The type of "self" does not always name it
+                        # (a named tuple has a tuple type, a class with a value restricted type variable none at all)
+                        expr_type = getattr(return_stmt.expr.node.type, "type", None) or getattr(func_node, "info", None)
+                        if getattr(expr_type, "fullname", ""):
+                            self_type = sds_types.NamedType(name=expr_type.name, qname=expr_type.fullname)
+                            types[str(self_type.to_dict())] = self_type
                     else:
                         type_ = mypy_expression_to_sds_type(return_stmt.expr)
                         if isinstance(type_, sds_types.NamedType | sds_types.TupleType):
